@@ -28,6 +28,11 @@ Tabs ==
    F5 |-> [c1 |-> Row({"A"}, {}, {}, FALSE),
            c2 |-> Row({"A"}, {<<"u2", "B">>}, {}, FALSE),
            c3 |-> Row({"R"}, {<<"u1", "A">>}, {<<"u1", "r1">>}, FALSE)]]
+FN1 == {"F1"}
+FN12 == {"F1", "F2"}
+FN13 == {"F1", "F3"}
+FN14 == {"F1", "F4"}
+FN15 == {"F1", "F5"}
 FN4 == {"F1", "F2", "F3", "F4"}
 FN5 == {"F1", "F2", "F3", "F4", "F5"}
 
@@ -38,14 +43,10 @@ AdmB == Adm({"B"}, {}, {"R"}, {}, {"r1"})        \* u1 holds B, u2 holds the rol
 Adm1 == {AdmA}
 Adm2 == {AdmA, AdmB}
 
-(* ---- scenario enumeration (one variable; TLC enumerates / samples the scenario space, the python driver expands a
-        scenario into the canonical action sequence SetFn(f1), writes, [requests], SetFn(f2), resync, requests, scratch,
-        resync, requests; the recorded trace of every expansion is validated against the actions above) ---- *)
-Shapes ==  \* what becomes of one document
-  {[k |-> "none"]}
-  \cup {[k |-> "live", c1 |-> c] : c \in Classes}
-  \cup {[k |-> "tomb", c1 |-> c, c2 |-> e] : c \in Classes, e \in Classes \cup {NoCls}}      \* written with c, deleted with a body of class e / without body
-  \cup {[k |-> "conf", c1 |-> c, c2 |-> e, hi |-> h] : c \in Classes, e \in Classes, h \in BOOLEAN}  \* two live leaves; hi: the second one wins
-Pick(S) == {RandomElement(S)}
 
+(* one named deviation at a time (Dev_*.cfg): each alone must break a statement of C18 in the model *)
+DevSkipTomb     == [Ideal EXCEPT !.skipTomb = TRUE]
+DevKeepRoles    == [Ideal EXCEPT !.keepRoles = TRUE]
+DevRegenNoInval == [Ideal EXCEPT !.regenNoInval = TRUE]
+DevLoserLazy    == [Ideal EXCEPT !.loserLazy = TRUE]
 =============================================================================
